@@ -25,6 +25,7 @@
 (*              field_terms (mode from): the part of the field's lexicon with the prefix / from p on     *)
 (*   mostfrequent f, lex, p, n, list = [[weight, term]..]   most_frequent_terms                          *)
 (*   termfreq   f, t, frequency, doc_frequency, first_id ; termfreq0: an absent term                     *)
+(*   idweights  key, list = [[docnum, weight]..]   postings of the unique key field                        *)
 (*   docids     all_doc_ids, iter_docs                                                                   *)
 (*   flag       value           a recorded boolean fact                          *)
 (*   error      ...             an exception from a read API                     *)
@@ -70,6 +71,10 @@ W(idx, d, f, t) == Scale(Tf(idx, d, f, t) * Unit, Doc(idx, d).b4)
 WeightList(idx, f, t) ==
   LET ids == SetToSortSeq({d \in Live(idx) : Tf(idx, d, f, t) > 0}, <)
   IN [i \in DOMAIN ids |-> <<ids[i], W(idx, ids[i], f, t)>>]
+\* an existence-only field (the unique key): one posting per live document with that key, weight = its boost
+IdWeights(idx, key) ==
+  LET ids == SetToSortSeq({d \in Live(idx) : Doc(idx, d).key = key}, <)
+  IN [i \in DOMAIN ids |-> <<ids[i], Scale(Unit, Doc(idx, ids[i]).b4)>>]
 SumW(wl) == LET RECURSIVE S(_) S(i) == IF i = 0 THEN 0 ELSE S(i - 1) + wl[i][2] IN S(Len(wl))
 
 \* ---- term iteration, relative to the lexicon the reader lists for each field -------------------------
@@ -112,6 +117,7 @@ Expected(idx, o) ==
     [] o.kind = "terminfo" -> [df |-> Len(PostingList(idx, o.f, o.t))]
     [] o.kind = "livekeys" -> [keys |-> ModelLive(o.ops, Len(o.ops))]
     [] o.kind = "grouporder" -> [groups_contiguous_and_in_order |-> TRUE]
+    [] o.kind = "idweights" -> [list |-> IdWeights(idx, o.key)]
     [] o.kind = "termsfrom" -> [got |-> TermsFrom(o.flex, o.fi, o.p)]
     [] o.kind = "fieldterms" -> [terms |-> FieldTerms(o.lex, o.p, o.mode)]
     [] o.kind = "mostfrequent" -> [list |-> MostFrequent(idx, o.f, o.lex, o.p, o.n)]
@@ -156,6 +162,7 @@ ObsOK(idx, o) ==
          IN \A g \in DOMAIN o.groups :
               LET grp == SelectSeq(o.groups[g], LAMBDA k : k \in ToSet(order))
               IN grp = <<>> \/ \E i \in 1 .. Len(order) - Len(grp) + 1 : SubSeq(order, i, i + Len(grp) - 1) = grp
+    [] o.kind = "idweights" -> o.list = IdWeights(idx, o.key)
     [] o.kind = "termsfrom" ->
          /\ [i \in DOMAIN o.got |-> <<o.got[i][1], o.got[i][2]>>] = TermsFrom(o.flex, o.fi, o.p)
          /\ ("infos" \in DOMAIN o /\ o.nodel) =>
